@@ -42,6 +42,10 @@ def run(ctx):
         ctx.violation("harness-build", "the harness does not build against the current tree: " + out[-1500:], {"build_output": out[-4000:]}, failing_input=False)
         return ctx.finish()
     ctx.coverage["model_configuration(Pure/Config.v)"] = config_switches()
+    stmts = re.findall(r"^Lemma\s+(C19_[A-Za-z0-9_']+)", open(os.path.join(vlib.COQ, "Properties", "C19.v")).read(), flags=re.M)
+    ctx.coverage["statements"] = {"count": len(stmts), "names": stmts,
+                                  "note": "each obligation (Theorem) of Properties/C19.v is the conjunction of the statements (Lemma) of one section; "
+                                          "Print Assumptions on the conjunction covers each of them"}
     for tag, (spec, _, _) in SPECS.items():
         vlib.seq_differential(ctx, spec, exe, proofs_ok, tag=tag)
     vlib.merge_parts(ctx, "cases = batches of independent calls of one exported function; small domain: all slices up to length 5-6 over the "
